@@ -77,6 +77,9 @@ pub struct C11Plan {
     pub mode: Mode,
     pub sched: Sched,
     pub paced_cuts: Vec<u32>,
+    /// Paced mode: virtual milliseconds before segment k reaches the client (see ExPlan).
+    #[serde(default)]
+    pub paced_gaps_ms: Vec<u32>,
     /// The terminal -> client stream ends after this many bytes (connection lost mid-upload).
     #[serde(default)]
     pub cut: Option<(u32, crate::conn::CloseKind)>,
@@ -223,6 +226,7 @@ pub fn run_plan(plan: &C11Plan, want_trace: bool) -> RunOut {
     ex.mode = plan.mode;
     ex.tail = rc::ACK.to_vec();
     ex.paced_cuts = plan.paced_cuts.clone();
+    ex.paced_gaps_ms = plan.paced_gaps_ms.clone();
     ex.cut = plan.cut;
     let log: SharedLog = Arc::new(Mutex::new(Log::default()));
     let trec = Arc::new(Mutex::new(TermRecord::default()));
@@ -456,6 +460,13 @@ pub fn run_plan(plan: &C11Plan, want_trace: bool) -> RunOut {
                     format!("no recognised file present: expected exactly one error, got {} item(s), {} error(s)", rec.items.len(), n_err),
                 );
             }
+            return;
+        }
+        // A directory that merely bears a recognised file name: the statement does not say whether the
+        // upload ignores it or refuses the whole payload; both are accepted - announcing it is not.
+        let dir_like_file = plan.extra.iter().any(|(rel, is_dir)| *is_dir && ID_TABLE.iter().any(|(p, _)| p == rel));
+        if dir_like_file && written.is_empty() && rec.items.len() == 1 && rec.items[0].res.is_err() && rec.ended {
+            out.stats.hit("probe.directory_named_like_a_file_refused");
             return;
         }
         if fs_err == Some(FsErrAt::Manifest) {
@@ -837,8 +848,14 @@ pub fn random_plan(rng: &mut Rng, max_size: u32) -> C11Plan {
             ("firmware/extra", true),
             ("update.spec", false),
             ("APP1/update.spec", false),
+            // a directory that merely bears a recognised name is not a recognised file
+            ("app3/update.spec", true),
+            ("firmware/kernel.gz", true),
         ];
         let (p, d) = *rng.pick(&cands);
+        if d && files.iter().any(|(pi, _)| ID_TABLE[*pi as usize].0 == p) {
+            continue;
+        }
         extra.push((p.to_string(), d));
     }
     let present: Vec<(u8, u32)> = files.iter().map(|(pi, s)| (ID_TABLE[*pi as usize].1, *s)).collect();
@@ -895,6 +912,7 @@ pub fn random_plan(rng: &mut Rng, max_size: u32) -> C11Plan {
         mode,
         sched: if rng.pct(50) { Sched::whole() } else { Sched::random(rng) },
         paced_cuts: vec![],
+        paced_gaps_ms: vec![],
         cut: None,
         fs_faults: vec![],
     };
@@ -934,6 +952,7 @@ pub fn random_plan(rng: &mut Rng, max_size: u32) -> C11Plan {
     if mode == Mode::Paced {
         let len: usize = 3 + p.requests.iter().map(|r| request_frame(r).len()).sum::<usize>() + 6;
         p.paced_cuts = crate::c05::random_paced_cuts(rng, len);
+        p.paced_gaps_ms = crate::c05::random_paced_gaps(rng);
     }
     p
 }
@@ -972,6 +991,7 @@ impl Check for C11 {
                 mode: Mode::Lockstep,
                 sched: Sched::whole(),
                 paced_cuts: vec![],
+                paced_gaps_ms: vec![],
                 cut: None,
                 fs_faults: vec![],
             }
@@ -1010,6 +1030,7 @@ impl Check for C11 {
                 mode: if i % 2 == 0 { Mode::Lockstep } else { Mode::Eager },
                 sched: Sched::whole(),
                 paced_cuts: vec![],
+                paced_gaps_ms: vec![],
                 cut: None,
                 fs_faults: vec![FsFault { file: id, op, nth, kind }],
             }
@@ -1041,6 +1062,7 @@ impl Check for C11 {
         p.sched = Sched::whole();
         p.mode = Mode::Lockstep;
         p.paced_cuts.clear();
+        p.paced_gaps_ms.clear();
         push(p);
         if plan.cut.is_some() {
             let mut p = plan.clone();
